@@ -148,9 +148,18 @@ def run_case(seed):
                            payload=rng.choice(['ints', 'random', 'special']))
     pf1.fields = [f.replace(' ', '_') for f in pf1.fields]
     relation = rng.choice(['same', 'same_files_permuted', 'same_files_permuted', 'different', 'different', 'mixed', 'mixed', 'mixed'])
+    # geometry scales on which a comparison of PHYSICAL box bounds with a tolerance cannot tell two meshes apart
+    # (a domain far from the origin with small cells; a nanometre-scale domain): index ranges must be compared
+    scale = rng.choice(['unit', 'unit', 'far-origin', 'nano'])
+    if scale == 'far-origin':
+        pf1.geo_low = [1024.0 * rng.choice([1, -2, 3]) for _ in pf1.geo_low]
+        pf1.dx0 = [2.0 ** -10] * 3
+    elif scale == 'nano':
+        pf1.geo_low = [x * 2.0 ** -30 for x in pf1.geo_low]
+        pf1.dx0 = [x * 2.0 ** -30 for x in pf1.dx0]
     pf2 = second_plotfile(rng, pf1, relation)
     bad_mesh = None
-    if rng.random() < 0.2:
+    if rng.random() < 0.25:
         bad_mesh = mismatch(rng, pf2)
     keys1 = c01.reader_keys(pf1.fields)
     keys2 = c01.reader_keys(pf2.fields)
@@ -163,6 +172,7 @@ def run_case(seed):
     count(f"levels={pf1.nlevels}")
     count(f"first_monotone={all(k == 'monotone' for k in pf1.meta['layouts'])}")
     count(f"mesh={'mismatch' if bad_mesh else 'common'}")
+    count(f"geometry scale={scale}")
     for k in range(2 if not bad_mesh else 1):
         k1, v1 = gen_sel(rng, keys1, 1)
         k2, v2 = gen_sel(rng, keys2, 2)
